@@ -24,7 +24,7 @@ CHECKS = {
     'C09': dict(
         engine='PoolLife',
         technique='TLA+ spec PoolLife.tla (pool registry keyed by worker id, _closed never reset, per-worker cleanup threads close->wait->terminate, restart re-keying, add_worker failure paths, _pool_closed set at the END of _close, close interrupted by an exception in the closing thread, run left through a BaseException, restart_workers(force=False) failing on a stuck worker) model-checked with TLC over all API histories; pre-fix and what-if variants rejected; histories enumerated by TLC (exhaustive path dump, simulation) replayed on real Pools with real thread/process(/remote) workers, tiny close_timeout, /proc scan after every step; TLC judges every real history (PoolLifeJudge); model outcomes vs real outcomes = conformance',
-        text='Exhaustive TLC model checking of pool life-cycle histories (<= 5 calls quick / <= 6 thorough, <= 3 workers, thread/process(/remote), force none/False, incl. close/with-exit cut short by an exception while joining the clean-up threads), bound to the code by replaying TLC-enumerated histories on real pools and judging each step (OS process table, per-run results, who was handed work) with the same TLA+ operators.',
+        text='Exhaustive TLC model checking of pool life-cycle histories (<= 5 calls quick / <= 6 thorough, <= 3 workers, thread/process(/remote), force none/False, close_timeout small/None, incl. close/with-exit cut short by an exception while joining the clean-up threads), bound to the code by replaying TLC-enumerated histories on real pools and judging each step (OS process table, per-run results, who was handed work) with the same TLA+ operators.',
         note='Trusted: TLC; Pool.run abstracted to its effect on the bookkeeping (the loop itself is Pool.tla / C07); worker-level outcomes of close/wait/terminate taken from the C04 model; /proc (session scan) as ground truth; a colliding worker id is produced with a subclass that reports a given id. Replay covers a seeded sample of the enumerated histories.',
         design_ref='6/C09'),
 }
@@ -98,6 +98,10 @@ def _session_live(sid, exclude, root=None):
     return out
 
 
+class _NoPool(Exception):
+    pass
+
+
 def host_main(case_path, out_path):
     with open(case_path) as f:
         case = json.load(f)
@@ -136,7 +140,14 @@ def host_main(case_path, out_path):
         wcls = {'thread': PersistentThreadWorker, 'process': PersistentProcessWorker, 'remote': PersistentRemoteWorker}
         ccls = {'thread': TG.CollidingPersistentThreadWorker, 'process': TG.CollidingPersistentProcessWorker,
                 'remote': TG.CollidingPersistentRemoteWorker}
-        pool = Pool(TG.pool_target, close_timeout=CLOSE_T, name='lifepool')
+        res['created'] = 'ok'
+        try:
+            # close_timeout=None: clean-up waits as long as it takes (only histories without stuck workers use it)
+            pool = Pool(TG.pool_target, close_timeout=None if case.get('ctimeout') == 'none' else CLOSE_T, name='lifepool')
+        except Exception as e:  # noqa
+            res['created'] = 'raised'
+            res['created_exc'] = '%s: %s' % (type(e).__name__, e)
+            raise _NoPool()
         if case['force'] == 'false':
             pool.force = False
         ws = []            # model's `ws`: dict(obj, kind, owned, pids) or placeholder for a failed duplicate
@@ -434,6 +445,8 @@ def host_main(case_path, out_path):
                 res['truncated'] = 'op %s hung' % op
                 break
         res['selfsig'] = len(sigs)
+    except _NoPool:
+        pass
     except BaseException as e:  # noqa
         import traceback
         res['error'] = '%s: %s\n%s' % (type(e).__name__, e, traceback.format_exc()[-1500:])
@@ -544,14 +557,20 @@ def _interesting(ops):
 def _select(tier, rng, free4, sim6, remote):
     plans, seen = [], set()
 
-    def add(force, ops, stickmode='swallow'):
-        key = (force, tuple(ops), stickmode)
+    def add(force, ops, stickmode='swallow', ctimeout='small'):
+        if ctimeout == 'none' and any(o.startswith('stick') or o == 'runl' for o in ops):
+            ctimeout = 'small'              # close_timeout=None would wait for a stuck worker forever
+        key = (force, tuple(ops), stickmode, ctimeout)
         if key in seen:
             return
         seen.add(key)
-        plans.append({'id': 'h%d' % len(plans), 'force': force, 'ops': list(ops), 'stickmode': stickmode})
+        plans.append({'id': 'h%d' % len(plans), 'force': force, 'ops': list(ops), 'stickmode': stickmode, 'ctimeout': ctimeout})
     for f, ops in CURATED:
         add(f, ops)
+    # Pool(close_timeout=None): wait as long as it takes
+    add('none', ['add:process', 'add:thread', 'run', 'close'], ctimeout='none')
+    add('none', ['add:process', 'run', 'kill:1', 'run', 'exc'], ctimeout='none')
+    add('false', ['add:thread', 'add:process', 'runp', 'restart', 'run', 'terminate'], ctimeout='none')
     add('none', ['add:process', 'add:thread', 'stick:1', 'close'], 'sleep')
     add('none', ['add:thread', 'add:process', 'stick:2', 'exc'], 'sleep')
     add('none', ['add:process', 'add:process', 'stick:1', 'stick:2', 'closeint', 'terminate'], 'sleep')
@@ -565,9 +584,9 @@ def _select(tier, rng, free4, sim6, remote):
     n4, n6 = (60, 25) if tier == 'quick' else (1200, 500)
     # the enumeration is done for force = none (the histories do not depend on it); one in four is replayed with force=False
     for f, ops in pool4[:n4]:
-        add(rng.choice(['none', 'none', 'none', 'false']), ops, rng.choice(['swallow', 'swallow', 'sleep']))
+        add(rng.choice(['none', 'none', 'none', 'false']), ops, rng.choice(['swallow', 'swallow', 'sleep']), rng.choice(['small', 'small', 'small', 'none']))
     for f, ops in pool6[:n6]:
-        add(rng.choice(['none', 'none', 'none', 'false']), ops, rng.choice(['swallow', 'swallow', 'sleep']))
+        add(rng.choice(['none', 'none', 'none', 'false']), ops, rng.choice(['swallow', 'swallow', 'sleep']), rng.choice(['small', 'small', 'small', 'none']))
     return plans
 
 
@@ -610,8 +629,9 @@ _KEYS = ('op', 'outcome', 'closing', 'alive_owned', 'live_unreg', 'extra', 'dead
 
 
 def _record(case, out):
-    return {'id': case['id'], 'scn': {'force': case['force'], 'ops': case['ops'], 'stickmode': case.get('stickmode', 'swallow')},
-            'obs': {'steps': [{k: s[k] for k in _KEYS} for s in out['steps']]}}
+    return {'id': case['id'], 'scn': {'force': case['force'], 'ctimeout': case.get('ctimeout', 'small'), 'ops': case['ops'],
+                                      'stickmode': case.get('stickmode', 'swallow')},
+            'obs': {'created': out.get('created', 'ok'), 'steps': [{k: s[k] for k in _KEYS} for s in out['steps']]}}
 
 
 def _outcome(out):
@@ -657,6 +677,7 @@ def run(prop, tier, replay=None):
         'whatif_earlyunreg': dict(cfg=_mc_cfg(MaxOps='4', EarlyUnreg='TRUE'), workers=2, expect='invariant:', label='what-if: restart_workers drops the registry entry before restarting (must be rejected)'),
         'whatif_closedonlywait': dict(cfg=_mc_cfg(MaxOps='4', ClosedOnlyWait='TRUE'), workers=2, expect='invariant:Inv_AllDead', label='what-if: _close only waits for a worker whose end a run has recorded (must be rejected)'),
         'whatif_staleoverwrite': dict(cfg=_mc_cfg(MaxOps='4', StaleOverwrite='TRUE'), workers=2, expect='invariant:Inv_RunIsolated', label='what-if: the in-flight count of abandoned runs is overwritten, not accumulated (must be rejected)'),
+        'whatif_nonetimeout': dict(cfg=_mc_cfg(MaxOps='3', NoneTimeoutRejected='TRUE'), workers=2, expect='invariant:Inv_Configurable', label='what-if: the constructor refuses close_timeout=None (must be rejected)'),
         'whatif_norekey': dict(cfg=_mc_cfg(MaxOps='4', NoRekey='TRUE'), workers=2, expect='invariant:Inv_RunIsolated', label='what-if: restart_workers does not re-key (must be rejected)'),
     }
     for w in ('W_ClosedWithStuck', 'W_RestartAfterDeath', 'W_DupRaised', 'W_RunAfterPoison', 'W_ForceFalseSurvivor', 'W_InterruptedStuck', 'W_RunInterrupted', 'W_GentleRestartFails', 'W_LingerAfterFailure', 'W_TwoAbandonedRuns'):
@@ -696,7 +717,7 @@ def run(prop, tier, replay=None):
     plans = _select(tier, rng, free4, sim6, remote)
     pf = os.path.join(scratch, 'plans.json')
     with open(pf, 'w') as f:
-        json.dump([{k: p[k] for k in ('id', 'force', 'ops')} for p in plans], f)
+        json.dump([{k: p[k] for k in ('id', 'force', 'ctimeout', 'ops')} for p in plans], f)
     allowed = {}
     for label, fx in (('pre', 'FixNone'), ('fix', 'FixAll')):
         c = _dump_cfg(MaxOps='8', MaxW='4', Fix=fx, Kinds=kinds, Plans='PlanSet', Free='FALSE')
@@ -708,7 +729,7 @@ def run(prop, tier, replay=None):
         for x in rp.tags.get('PATH', []):
             allowed[label].setdefault(x[0], set()).add(x[3])
     nopre = [p['id'] for p in plans if p['id'] not in allowed['pre']]
-    ncur = len(CURATED) + 3 + (len(CURATED_REMOTE) if remote else 0)
+    ncur = len(CURATED) + 6 + (len(CURATED_REMOTE) if remote else 0)
     if any(int(i[1:]) < ncur for i in nopre):
         raise MachineryError('curated histories that are not behaviours of PoolLife.tla: %s' % [p['ops'] for p in plans if p['id'] in nopre][:3])
     # a sampled history was enumerated for force = none; with force=False it may not be a behaviour (run would wait for a
@@ -722,7 +743,7 @@ def run(prop, tier, replay=None):
     ev.cov['replay_wall_s'] = t_rep.s()
     records, meta = [], {}
     for case, out in zip(plans, outs):
-        if out.get('error') or not out.get('steps'):
+        if out.get('error') or (not out.get('steps') and out.get('created', 'ok') == 'ok'):
             ev.cov.setdefault('host_errors', []).append({'case': case, 'error': (out.get('error') or 'no step executed')[:300]})
             continue
         rec = _record(case, out)
@@ -738,6 +759,11 @@ def run(prop, tier, replay=None):
         case, out = meta[rid]
         name, _, k = clause.partition('@')
         k = int(k)
+        if k == 0:
+            violations.append(Violation('C09', 'C09|%s|force=%s|close_timeout=%s|%s' % (name, case['force'], case.get('ctimeout'), out.get('created_exc', '')[:60]),
+                                        '%s fails: Pool(close_timeout=%s) cannot be constructed: %s' % (name, 'None' if case.get('ctimeout') == 'none' else CLOSE_T, out.get('created_exc')),
+                                        {k2: case.get(k2) for k2 in ('force', 'ops', 'stickmode', 'ctimeout')}))
+            continue
         s = out['steps'][k - 1]
         prev = [x.partition(':')[0] for x in case['ops'][:k - 1]]
         ctx = []
@@ -760,7 +786,7 @@ def run(prop, tier, replay=None):
                 'extra results %d, dead workers handed work %d, restarted workers without work %d'
                 % (name, k, case['ops'][k - 1], case['ops'], case['force'], kinds_, s['outcome'], s['alive_owned'], s['live_unreg'],
                    (' ' + str(s.get('unreg_cmds'))) if s.get('unreg_cmds') else '', s['extra'], s['dead_got_work'], s['restarted_no_work']))
-        violations.append(Violation('C09', sig, what, {k2: case[k2] for k2 in ('force', 'ops', 'stickmode')}))
+        violations.append(Violation('C09', sig, what, {k2: case.get(k2) for k2 in ('force', 'ops', 'stickmode', 'ctimeout')}))
 
     # ---- 4. conformance ----
     conf = {'pre': 0, 'fix': 0, 'both': 0, 'neither': 0, 'truncated': 0, 'no_behaviour_of_the_matching_model': 0}
@@ -794,14 +820,14 @@ def run(prop, tier, replay=None):
     ev.cov['rule'] = ('case = (force setting, API history, kind of sticking); histories enumerated by TLC (all %d histories of 4 calls, %d simulated of 6 calls), '
                       'seeded selection of %d plus %d curated; non-trivial = some step had a live process worker or ran/restarted workers'
                       % (len(set(free4)), len(set(sim6)), len(plans) - len(CURATED) - 2 - (len(CURATED_REMOTE) if remote else 0),
-                         len(CURATED) + 3 + (len(CURATED_REMOTE) if remote else 0)))
+                         len(CURATED) + 6 + (len(CURATED_REMOTE) if remote else 0)))
     ev.cov['exhaustive'] = False
     ev.cov['replayed_cases'] = len(records)
     ev.cov['steps_by_op'] = {}
     for r_ in records:
         for s in r_['obs']['steps']:
             ev.cov['steps_by_op'][s['op']] = ev.cov['steps_by_op'].get(s['op'], 0) + 1
-    for rec in records[:2] + records[len(CURATED) + 3:len(CURATED) + 4]:
+    for rec in records[:2] + records[len(CURATED) + 6:len(CURATED) + 4]:
         ev.sample({'scn': rec['scn'], 'obs': rec['obs'], 'model_outcomes_code_as_is': sorted(allowed['pre'].get(rec['id'], ()))[:4]})
     ev.assumptions += ['Pool.run is abstracted to its effect on the bookkeeping; its loop is the subject of Pool.tla (C07/C08)',
                        'worker ids are not reused by the OS within a history (fresh keys); the what-if variant ReuseKeys shows what breaks otherwise',
